@@ -501,7 +501,8 @@ class Balancer:
             left_msb_zero = None
 
         if low > 0:
-            left_lsb = inner[high - 1 : 0]
+            # the bits below the slice
+            left_lsb = inner[low - 1 : 0]
             left_lsb_zero = claripy.backends.vsa.is_true(left_lsb == 0)
         else:
             left_lsb = None
@@ -511,11 +512,12 @@ class Balancer:
             new_left = inner
             new_right = claripy.Concat(claripy.BVV(0, len(left_msb)), truism.args[1], claripy.BVV(0, len(left_lsb)))
             return Bool(truism.op, (new_left, new_right))
-        if left_msb_zero:
+        # with only one side known to be zero the slice is all of inner only if there is nothing on the other side
+        if left_msb_zero and low == 0:
             new_left = inner
             new_right = claripy.Concat(claripy.BVV(0, len(left_msb)), truism.args[1])
             return Bool(truism.op, (new_left, new_right))
-        if left_lsb_zero:
+        if left_lsb_zero and left_msb is None:
             new_left = inner
             new_right = claripy.Concat(truism.args[1], claripy.BVV(0, len(left_lsb)))
             return Bool(truism.op, (new_left, new_right))
